@@ -65,11 +65,13 @@ static void rng_hook(int fn, uint32_t st)
 }
 static void arm(const char *api, long rng_ceiling)
 {
+  /* the fits must terminate whatever processor count the machine reports (H1): 1, 2 or the real one, by case index */
+  { vh_ctx *cur = vh_current(); long ix = cur ? cur->idx : 0; libsci_verif_nprocs = (ix % 3 == 0) ? 1 : (ix % 3 == 1) ? 2 : 0; vh_hist("reported_processors", (long)libsci_verif_nprocs); }
   g_api = api; g_last_loop = -1; g_last_comp = (size_t)-1; g_tick_comp_count = 0; g_nan_run = 0;
   g_rng_calls = 0; g_rng_ceiling = rng_ceiling; g_cluster_passes = 0;
   libsci_verif_tick_hook = tick_hook; libsci_verif_rng_hook = rng_hook;
 }
-static void disarm(void) { libsci_verif_tick_hook = NULL; libsci_verif_rng_hook = NULL; vh_max("max_clustering_loop_passes", (double)g_cluster_passes); }
+static void disarm(void) { libsci_verif_tick_hook = NULL; libsci_verif_rng_hook = NULL; libsci_verif_nprocs = 0; vh_max("max_clustering_loop_passes", (double)g_cluster_passes); }
 
 /* ------------------------------------------------------------------ degenerate data */
 /* n x p matrix of exact rank r (r <= min(n,p)) from small integer factors, optionally duplicated rows,
@@ -298,11 +300,34 @@ out:
 static void case_cpca(vh_ctx *c)
 {
   size_t nb = (size_t)vh_int(c, 2, 4), n = (size_t)vh_int(c, 3, 10), b, i, j, npc, minw = 99;
-  int scaling = (int)vh_int(c, 0, 5), anyconst = 0, bad = 0;
+  int scaling = (int)vh_int(c, 0, 5), anyconst = 0, bad = 0, ortho = 0;
   tensor *t;
   CPCAMODEL *m;
   initTensor(&t);
-  for (b = 0; b < nb; b++) {
+  /* orthogonal designs (third seeded wave): the blocks share the 7 mutually orthogonal, centred +-1 columns of the 2^3 factorial with its
+     interactions, each with its own integer amplitude (distinct sums of squares, exact arithmetic).  Every principal direction is then one
+     column, orthogonal to all the others: after it is removed the residual holds an exactly null column where the largest one was. */
+  if (vh_coin(c, 0.12)) {
+    static const int F[7][3] = { {1,0,0}, {0,1,0}, {0,0,1}, {1,1,0}, {1,0,1}, {0,1,1}, {1,1,1} };
+    size_t perm[7], used = 0, col; int amp[7];
+    vh_perm(c, perm, 7);
+    for (i = 0; i < 7; i++) amp[i] = (int)(i + 1) * (vh_coin(c, 0.5) ? 1 : -1);
+    n = 8; nb = (size_t)vh_int(c, 2, 3); scaling = vh_coin(c, 0.5) ? 0 : 1; ortho = 1;
+    for (b = 0; b < nb; b++) {
+      size_t w = b + 1 == nb ? 7 - used : (size_t)vh_int(c, 1, (long)(7 - used - (nb - b - 1)));
+      matrix *mb; NewMatrix(&mb, n, w);
+      for (col = 0; col < w; col++, used++) for (i = 0; i < n; i++) {
+        int bits[3] = { (int)(i & 1), (int)((i >> 1) & 1), (int)((i >> 2) & 1) }, sgn = 1, q;
+        for (q = 0; q < 3; q++) if (F[perm[used]][q]) sgn *= bits[q] ? 1 : -1;
+        mb->data[i][col] = (double)(sgn * amp[perm[used]]);
+      }
+      TensorAppendMatrix(t, mb);
+      if (w < minw) minw = w;
+      DelMatrix(&mb);
+    }
+    vh_obs("cpca_orthogonal_design_cases", 1);
+  }
+  else for (b = 0; b < nb; b++) {
     size_t w = (size_t)vh_int(c, 1, 5), r = (size_t)vh_int(c, 0, (long)(w < n ? w : n));
     int kind; double pert;
     ldm *X = degenerate(c, n, w, r, &kind, &pert);
@@ -314,7 +339,7 @@ static void case_cpca(vh_ctx *c)
     DelMatrix(&mb); ldm_free(X);
   }
   npc = (size_t)vh_int(c, 1, (long)minw + 2);
-  snprintf(g_inclass, sizeof g_inclass, "%s", anyconst ? "constant-block" : "lowrank-blocks");
+  snprintf(g_inclass, sizeof g_inclass, "%s", ortho ? "orthogonal-design" : anyconst ? "constant-block" : "lowrank-blocks");
   vh_class(c, "CPCA-%s-sc%d-nb%zu-%s", g_inclass, scaling, nb, npc > minw ? "npc>width" : "npc<=width");
   vh_desc(c, "CPCA blocks=%zu rows=%zu minwidth=%zu scaling=%d npc=%zu constant_block=%d", nb, n, minw, scaling, npc, anyconst);
   if (bad) { vh_skip(c, "scaling value between the zero guards"); DelTensor(&t); return; }
